@@ -1057,6 +1057,9 @@ class Variable(CanBehaveLikeAVariable[T]):
         if self._predicate_type_ == PredicateType.DecoratedMethod and not DomainMapping._is_a_condition_.fget(self):
             # the result of a function used as a value (an operand, an argument) is passed on whatever its truthiness.
             self._is_false_ = False
+        elif self._predicate_type_ is None:
+            # an instance (constructed by a rule, or taken from the registry) is an object, whatever bool() says about it.
+            self._is_false_ = False
 
         if self._yield_when_false_ or not self._is_false_:
             hv = function_output if isinstance(function_output, HashedValue) else HashedValue(function_output)
